@@ -213,7 +213,10 @@ def grep_forbidden(prop=None):
             dirs[:] = [x for x in dirs if x != ".lake"]
             files += [os.path.join(root, f) for f in fs if f.endswith(".lean")]
     else:
-        files = list(import_closure(["LibfiveTheorems." + prop, "Audit." + prop, "Mains." + prop]).values())
+        roots = ["Mains." + prop]
+        for m in theorem_modules(prop):
+            roots += ["LibfiveTheorems." + m, "Audit." + m]
+        files = list(import_closure(roots).values())
     hits = []
     for p in sorted(files):
         src = strip_lean_comments(open(p).read())
@@ -223,11 +226,20 @@ def grep_forbidden(prop=None):
     return hits
 
 
+def theorem_modules(prop):
+    """LibfiveTheorems.<prop> plus its extension modules LibfiveTheorems.<prop><Suffix> (e.g. C10Grid, C09Ext)."""
+    d = os.path.join(LEAN, "LibfiveTheorems")
+    mods = sorted(f[:-5] for f in os.listdir(d)
+                  if f.endswith(".lean") and f.startswith(prop) and (f == prop + ".lean" or not f[len(prop)].isdigit()))
+    return [m for m in mods if os.path.exists(os.path.join(LEAN, "Audit", m + ".lean"))] or [prop]
+
+
 def audit(prop):
-    """Build the property's theorem module, run `#print axioms` on each listed theorem.
-    Returns dict {ok, theorems:[{name, axioms}], problems:[...]}"""
+    """Build the property's theorem modules (LibfiveTheorems.<prop> and its extensions), run `#print axioms` on each
+    listed theorem (Audit/<module>.lean).  Returns dict {ok, theorems:[{name, axioms}], problems:[...]}"""
     res = {"ok": True, "theorems": [], "problems": []}
-    rc, out = lake_build(["LibfiveTheorems.%s" % prop, "vd-%s" % prop.lower()])
+    mods = theorem_modules(prop)
+    rc, out = lake_build(["LibfiveTheorems.%s" % m for m in mods] + ["vd-%s" % prop.lower()])
     if rc != 0:
         res["ok"] = False
         res["problems"].append({"kind": "lake-build-failed", "output": out[-6000:]})
@@ -236,27 +248,29 @@ def audit(prop):
     if hits:
         res["ok"] = False
         res["problems"].append({"kind": "forbidden-token", "hits": hits})
-    audit_file = os.path.join(LEAN, "Audit", prop + ".lean")
-    r = run(["lake", "env", "lean", audit_file], cwd=LEAN)
-    if r.returncode != 0:
-        res["ok"] = False
-        res["problems"].append({"kind": "audit-failed", "output": r.stdout[-4000:]})
-        return res
-    # parse "'name' depends on axioms: [a, b]" / "'name' does not depend on any axioms"
-    text = re.sub(r"\s+", " ", r.stdout)
-    for m in re.finditer(r"'(\S+)' (does not depend on any axioms|depends on axioms: \[([^\]]*)\])", text):
-        axs = [a.strip() for a in (m.group(3) or "").split(",") if a.strip()]
-        res["theorems"].append({"name": m.group(1), "axioms": axs})
-        bad = [a for a in axs if a not in ALLOWED_AXIOMS]
-        if bad:
+    for m in mods:
+        audit_file = os.path.join(LEAN, "Audit", m + ".lean")
+        r = run(["lake", "env", "lean", audit_file], cwd=LEAN)
+        if r.returncode != 0:
             res["ok"] = False
-            res["problems"].append({"kind": "axiom", "theorem": m.group(1), "axioms": bad})
-    want = re.findall(r"#print axioms\s+(\S+)", strip_lean_comments(open(audit_file).read()))
-    got = {t["name"] for t in res["theorems"]}
-    missing = [w for w in want if w not in got]
-    if missing or not want:
-        res["ok"] = False
-        res["problems"].append({"kind": "audit-missing", "theorems": missing})
+            res["problems"].append({"kind": "audit-failed", "module": m, "output": r.stdout[-4000:]})
+            continue
+        # parse "'name' depends on axioms: [a, b]" / "'name' does not depend on any axioms"
+        text = re.sub(r"\s+", " ", r.stdout)
+        got = set()
+        for mm in re.finditer(r"'(\S+)' (does not depend on any axioms|depends on axioms: \[([^\]]*)\])", text):
+            axs = [a.strip() for a in (mm.group(3) or "").split(",") if a.strip()]
+            res["theorems"].append({"name": mm.group(1), "axioms": axs})
+            got.add(mm.group(1))
+            bad = [a for a in axs if a not in ALLOWED_AXIOMS]
+            if bad:
+                res["ok"] = False
+                res["problems"].append({"kind": "axiom", "theorem": mm.group(1), "axioms": bad})
+        want = re.findall(r"#print axioms\s+(\S+)", strip_lean_comments(open(audit_file).read()))
+        missing = [w for w in want if w not in got]
+        if missing or not want:
+            res["ok"] = False
+            res["problems"].append({"kind": "audit-missing", "module": m, "theorems": missing})
     return res
 
 
